@@ -36,6 +36,14 @@ include!("../bin_c01/common.rs");
 
 // ---------------------------------------------------------------------------------------------
 
+/// `AVG_RANGE_COMP_REQ` of idlset 0.2.5 on this architecture
+#[cfg(target_arch = "x86_64")]
+const IDLSET_AVG_RANGE_COMP_REQ: usize = 12;
+#[cfg(target_arch = "aarch64")]
+const IDLSET_AVG_RANGE_COMP_REQ: usize = 5;
+#[cfg(not(any(target_arch = "aarch64", target_arch = "x86_64")))]
+const IDLSET_AVG_RANGE_COMP_REQ: usize = 14;
+
 struct Loaded {
     db: Db,
     be: Backend,
@@ -140,13 +148,22 @@ impl<'a, 'b> Ctx<'a, 'b> {
             }
             tbls.push(format!("{a}:{c}"));
             for (k, ids) in content {
+                // the representation `optimise_dirty_idls` -> `IDLBitRange::maybe_compress` leaves in the idl
+                // cache after a reindex (idlset 0.2.5, x86_64: >= 12 ids and >= 12 ids per 64-id range)
+                let nranges = ids.iter().map(|i| i / 64).collect::<BTreeSet<_>>().len();
+                let comp = ids.len() >= IDLSET_AVG_RANGE_COMP_REQ && ids.len() / nranges.max(1) >= IDLSET_AVG_RANGE_COMP_REQ;
                 let kv = if c == 'e' && KINDS[a] == AK::U32 {
                     V::N(k.parse().map_err(|_| format!("numeric key {k}"))?)
                 } else {
                     V::S(k.as_bytes().to_vec())
                 };
                 let idt = if ids.is_empty() { "-".to_string() } else { ids.iter().map(|x| x.to_string()).collect::<Vec<_>>().join(".") };
-                rows.push(format!("{a}:{c}:{}:{idt}", show_v(&kv)));
+                if comp {
+                    self.rep.count("index-rows:compressed");
+                } else {
+                    self.rep.count("index-rows:sparse");
+                }
+                rows.push(format!("{a}:{c}:{}:{idt}:{}", show_v(&kv), comp as u8));
             }
         }
         let mut want: Vec<String> = layout.iter().map(|(a, c)| format!("{a}:{c}")).collect();
@@ -356,10 +373,40 @@ impl<'a, 'b> Ctx<'a, 'b> {
         fails
     }
 
-    /// evaluate; on failure shrink the tree, classify, record
+    /// Recognisers: a deviation is a known finding only if the witness has the known-defective
+    /// shape AND removing that shape by a meaning-preserving rewrite makes the implementation correct.
+    fn classify(&mut self, ld: &mut Loaded, c: &Case, fails: &[Failure]) -> String {
+        if fails.iter().any(|f| f.kind != "impl-vs-oracle") {
+            return "unclassified".into();
+        }
+        let d1 = has_isolated_not(&c.t, false);
+        let f2 = has_empty_needle(&c.t);
+        let mut cured = |ctx: &mut Self, t: T| -> bool {
+            let mut g = c.clone();
+            g.t = t;
+            ctx.eval(ld, &g, false).is_empty()
+        };
+        if d1 && cured(self, guard_nots(&c.t, false)) {
+            "D1:isolated-not".into()
+        } else if f2 && cured(self, fill_needles(&c.t)) {
+            "C01-F2:empty-substring-needle".into()
+        } else if d1 && f2 && cured(self, guard_nots(&fill_needles(&c.t), false)) {
+            self.rep.count("known:mixed-D1-and-F2");
+            "C01-F2:empty-substring-needle".into()
+        } else {
+            "unclassified".into()
+        }
+    }
+
+    /// evaluate; on failure classify; shrink + record unless enough witnesses of that known class exist
     fn run(&mut self, ld: &mut Loaded, c: &Case) {
         let fails = self.eval(ld, c, true);
         if fails.is_empty() {
+            return;
+        }
+        let class0 = self.classify(ld, c, &fails);
+        if class0 != "unclassified" && self.known_recorded.get(&class0).copied().unwrap_or(0) >= 2 {
+            self.rep.count(&format!("known:{class0}"));
             return;
         }
         let kind0 = fails[0].kind.clone();
@@ -383,33 +430,10 @@ impl<'a, 'b> Ctx<'a, 'b> {
             }
             break;
         }
-        // recognisers on the minimised witness: a deviation is a known finding only if removing the
-        // known-defective shape by a meaning-preserving rewrite makes the implementation correct
-        let mut class = "unclassified".to_string();
-        if kind0 == "impl-vs-oracle" && cur_fails.iter().all(|f| f.kind == "impl-vs-oracle") {
-            let d1 = has_isolated_not(&cur.t, false);
-            let f2 = has_empty_needle(&cur.t);
-            let mut cured = |ctx: &mut Self, t: T| -> bool {
-                let mut g = cur.clone();
-                g.t = t;
-                ctx.eval(ld, &g, false).is_empty()
-            };
-            if d1 && cured(self, guard_nots(&cur.t, false)) {
-                class = "D1:isolated-not".into();
-            } else if f2 && cured(self, fill_needles(&cur.t)) {
-                class = "C01-F2:empty-substring-needle".into();
-            } else if d1 && f2 && cured(self, guard_nots(&fill_needles(&cur.t), false)) {
-                self.rep.count("known:mixed-D1-and-F2");
-                class = "C01-F2:empty-substring-needle".into();
-            }
-        }
+        let class = self.classify(ld, &cur, &cur_fails);
         if class != "unclassified" {
             self.rep.count(&format!("known:{class}"));
-            let n = self.known_recorded.entry(class.clone()).or_insert(0);
-            if *n >= 2 {
-                return;
-            }
-            *n += 1;
+            *self.known_recorded.entry(class.clone()).or_insert(0) += 1;
         }
         for mut f in cur_fails {
             f.class = class.clone();
@@ -556,7 +580,7 @@ fn run_all(args: &Args, ctx: &mut Ctx) {
     }
 
     // ---- stratum 3: random databases x random layouts x random trees
-    let ndb = args.cases(12, 150);
+    let ndb = args.cases(12, 100);
     let layouts_per_db = if thorough { 24 } else { 10 };
     let trees_per_layout = if thorough { 60 } else { 30 };
     let leaves_fc = leaf_alphabet(false);
